@@ -264,9 +264,7 @@ def check_script_bytes(b):
     label = []
     for name, w in preds:
         g = getattr(s, name)()
-        if g is not True and g is not False:
-            raise Viol('%s(%s) did not return a bool' % (name, b.hex()[:80]), w, repr(g))
-        if g != w:
+        if bool(g) != w:
             raise Viol('%s(%s)' % (name, b.hex()[:80]), w, g)
         if w:
             label.append(name[3:] if name.startswith('is_') else name)
@@ -291,7 +289,7 @@ def check_script_bytes(b):
     if s2.GetSigOpCount(True) != RS.sigop_count(b, True) or s2.GetSigOpCount(False) != RS.sigop_count(b, False):
         raise Viol('GetSigOpCount accurate-then-legacy on a fresh object for %s' % b.hex()[:80], (RS.sigop_count(b, True), RS.sigop_count(b, False)), None)
     for name, w in preds:
-        if getattr(s, name)() != w:
+        if bool(getattr(s, name)()) != w:
             raise Viol('%s(%s) changed its answer on the second call' % (name, b.hex()[:80]), w, not w)
     if bad:
         label.append('malformed')
